@@ -387,8 +387,34 @@ func s14() *sched.Scenario {
 		}}
 }
 
+// S15: the server is closed while a Connect of a TCP allocation is still dialling its peer (the dial takes 2 s);
+// the dial then succeeds and the handler goes on with an allocation that has been closed under it.
+func s15() *sched.Scenario {
+	return &sched.Scenario{Name: "S15-server-close-during-a-slow-connect-dial", Bound: bound(), FreeBound: -1, Opt: opt,
+		Body: func(*vsched.Sched) (func() []string, func()) {
+			w := sched.NewBW(sched.BCfg{Stream: true, SlowDial: 2 * time.Second, CB: yieldCB})
+			c := w.NewClient("c1")
+			if _, err := w.Net.ListenTCPAddr("tcp4", &net.TCPAddr{IP: vtx.PeerSpec["B"].IP, Port: 5000}); err != nil {
+				panic(err)
+			}
+			var f flags
+			vsched.Go("client", func() {
+				c.Do(wire.Allocate, func(b *wire.B) { b.U32(wire.AttrRequestedTransport, 6<<24) })
+				c.Fire(wire.Connect, peer("B"))
+				vsched.IdleSleep(time.Second)
+				vsched.Mark()
+				_ = w.Srv.Close()
+				f.set("closer")
+				vsched.IdleSleep(3 * time.Second)
+				f.set("client")
+			})
+
+			return f.need("client", "closer"), nil
+		}}
+}
+
 func scenarios() []*sched.Scenario {
-	return []*sched.Scenario{s1(), s2(), s3(), s4(), s5(), s6(), s7(), s8(), s10(), s11(), s12(), s13(), s14()}
+	return []*sched.Scenario{s1(), s2(), s3(), s4(), s5(), s6(), s7(), s8(), s10(), s11(), s12(), s13(), s14(), s15()}
 }
 
 func TestC18Sched(t *testing.T) {
